@@ -13,6 +13,7 @@ type Lexer struct {
 	readPosition int  // current reading position in input (after current char)
 	ch           byte // current char under examination
 	inside       bool
+	inComment    bool // between <%# and %>: quotes and # are plain characters
 	curLine      int
 	verif        verifLexState // step budget, only with build tag verif
 }
@@ -57,6 +58,14 @@ func (l *Lexer) nextInsideToken() token.Token {
 	var tok token.Token
 
 	l.skipWhitespace()
+
+	if l.inComment && (l.ch == '"' || l.ch == '`' || l.ch == '#') {
+		// the text of a comment tag is not code: a quote or a # in it must
+		// not swallow the closing %>
+		tok = l.newToken(token.ILLEGAL)
+		l.readChar()
+		return tok
+	}
 
 	switch l.ch {
 	case '=':
@@ -116,6 +125,7 @@ func (l *Lexer) nextInsideToken() token.Token {
 	case '%':
 		if l.peekChar() == '>' {
 			l.inside = false
+			l.inComment = false
 			l.readChar()
 			tok = token.Token{Type: token.E_END, Literal: "%>", LineNumber: l.curLine}
 			break
@@ -129,6 +139,7 @@ func (l *Lexer) nextInsideToken() token.Token {
 			case '#':
 				l.readChar()
 				tok = token.Token{Type: token.C_START, Literal: "<%#", LineNumber: l.curLine}
+				l.inComment = true
 			case '=':
 				l.readChar()
 				tok = token.Token{Type: token.E_START, Literal: "<%=", LineNumber: l.curLine}
